@@ -12,7 +12,7 @@ LEVEL = "exploration"
 RULE = (
     "Hypothesis generates valid parameterisations of Forest (S<=40, p in [0,1] incl. 0 and 1), De Moor (useful life "
     "1..5, lead time 1..4, order limit 1..4, max demand 1..15, gamma mean (0,12], cov [0.1,2], both issuing policies), "
-    "Hendrix (useful life 1..3, order limits 1..4, Poisson means (0,15], substitution probability [0,1] incl. ends) and "
+    "Hendrix (useful life 1..3, order limits 1..4, Poisson means (0,30], substitution probability [0,1] incl. ends) and "
     "Mirjalili (useful life 1..4, order limit 1..5, max demand 1..10, n and delta (0,15], logit coefficients [-3,3]) "
     "with S*A*E below a cap; for each, random_event_probability is evaluated on EVERY state x action x event (one "
     "vmapped call) and every entry must be finite and >= -1e-12 and every state-action row must sum to one within "
